@@ -235,6 +235,22 @@ Definition check_put (fl : flavor) (reqpath data : string) (ret : outcome)
                    end;
      finding := false |}.
 
+(** ** A history of PUTs at one request path against a backend with state.  The code does
+    not consult the backend before Put, so every step is judged as a PUT of its own: whether
+    an object was retrievable at the request path before (an earlier PUT, or one that was
+    there) must not matter, and the client gets back the path the backend answered. *)
+Definition verdict_and (a b : verdict) : verdict :=
+  {| agree := agree a && agree b; spec := spec a && spec b; applies := applies a && applies b;
+     finding := finding a || finding b |}.
+Fixpoint check_putseq (fl : flavor) (reqpath : string) (steps : list (string * outcome))
+         (obs : list (cres obj_view * option (string * string))) : verdict :=
+  match steps, obs with
+  | [], [] => {| agree := true; spec := true; applies := true; finding := false |}
+  | (d, ret) :: steps', (c, r) :: obs' =>
+    verdict_and (check_put fl reqpath d ret c r) (check_putseq fl reqpath steps' obs')
+  | _, _ => {| agree := false; spec := false; applies := true; finding := false |}
+  end.
+
 (** ** Documents from the independent writer, and arbitrary trees *)
 Inductive call := CallObjects | CallFind | CallSync.
 Inductive call_result :=
